@@ -263,6 +263,7 @@ pub fn gen_text_style(r: &mut Rng) -> crate::mval::TextStyle {
         escape_slash: r.chance(1, 4),
         upper_hex: r.chance(1, 2),
         trail: if r.chance(1, 3) { r.below(4) as u8 } else { 0 },
+        lead: if r.chance(1, 8) { r.below(4) as u8 } else { 0 },
         num_form: if r.chance(1, 3) { r.below(3) as u8 } else { 0 },
     }
 }
